@@ -319,7 +319,7 @@ fn metric_t<T: RealNumber>(c: &mut Case) {
     let is32 = width::<T>() == "f32";
     let w = width::<T>();
     let e = eps::<T>();
-    let len = if c.rng.bool(0.15) { c.rng.us(1, 2) } else { size(&mut c.rng, 30) };
+    let len = if scverif::big() == 0 && c.rng.bool(0.15) { c.rng.us(1, 2) } else { size(&mut c.rng, 30) };
     let (lo, hi, band) = if c.rng.bool(0.5) { (1e-3, 1e3, "1e-3..1e3") } else { (1e-6, 1e6, "1e-6..1e6") };
     let tr = draw_triple(&mut c.rng, len, is32, lo, hi);
     c.describe(json!({"width": w, "len": len, "band": band, "relation": tr.relation, "style": tr.style, "x": tr.x, "y": tr.y, "z": tr.z}));
@@ -387,7 +387,7 @@ fn hamming_refs(len: usize, e: f64, a: &[i64], b: &[i64], cc: &[i64]) -> [Ref; 3
 fn hamming_t<F: RealNumber>(c: &mut Case) {
     let w = width::<F>();
     let e = eps::<F>();
-    let len = if c.rng.bool(0.15) { c.rng.us(1, 2) } else { size(&mut c.rng, 30) };
+    let len = if scverif::big() == 0 && c.rng.bool(0.15) { c.rng.us(1, 2) } else { size(&mut c.rng, 30) };
     let alphabet = *c.rng.pick(&[2i64, 2, 3, 5, 100]);
     let x: Vec<i64> = (0..len).map(|_| c.rng.int(0, alphabet - 1)).collect();
     let relation = c.rng.below(4);
@@ -698,7 +698,7 @@ fn maha_t<T: RealNumber, M: Matrix<T>>(c: &mut Case, from_data: bool, backend: &
     let is32 = width::<T>() == "f32";
     let w = width::<T>();
     let e = eps::<T>();
-    let n = if c.rng.bool(0.15) { c.rng.us(1, 2) } else { size(&mut c.rng, 30) };
+    let n = if scverif::big() == 0 && c.rng.bool(0.15) { c.rng.us(1, 2) } else { size(&mut c.rng, 30) };
     let inp = match if from_data { draw_data(c, n, is32) } else { draw_cov(c, n, is32) } {
         Some(i) => i,
         None => return,
@@ -1053,6 +1053,17 @@ fn hamming(c: &mut Case) {
     }
 }
 
+/// the closed forms, the metric laws and the Mahalanobis identities on vectors of 31..105 entries, Hamming on 31..105 (beyond the
+/// ordinary bound of 30)
+fn large(c: &mut Case) {
+    let g = c.index % 3;
+    scverif::with_big(1, || match g {
+        0 => metric(c),
+        1 => hamming(c),
+        _ => maha_cov(c),
+    })
+}
+
 fn main() {
     runner::main(Spec {
         property: "C17",
@@ -1072,6 +1083,7 @@ fn main() {
             Family::new("maha_cov", 12000, 200000, maha_cov),
             Family::new("maha_data", 8000, 120000, maha_data),
             Family::new("maha_scale", 6000, 100000, maha_scale),
+            Family::new("large", 900, 18000, large),
             Family::new("reject", REJ_TOTAL, REJ_TOTAL, reject).exhaustive(true, true),
         ],
         min_nontrivial: 10000,
